@@ -121,13 +121,18 @@ CHECKS = {
         technique="Coq proof by computation (vm_compute over Q) on tables regenerated from the source by a translator + accuracy oracle on the assembled solvers",
         ref="6 C08"),
     "C09": dict(
-        text="Coq (every commutative ring): every conservation law of the stoichiometry annihilates the forcing the model "
-             "computes (C09_forcing_conserves_linear_invariants, on top of C01's mass-action theorem). On the "
-             "implementation: the assembled solvers (5 Rosenbrock sets + backward Euler, random configuration) on random "
-             "mechanisms that conserve a positive weighted sum by construction, several calls, non-clipping overload: "
-             "|w.y_after - w.y_before| <= 1e-9 sum|w_i y_i|.",
-        note="PARTIAL: conservation through the stage / Newton updates (w.K_i = 0) is checked by the oracle, not yet a theorem.",
-        technique="Coq proof (ring, column-space argument) + conservation oracle on the assembled solvers",
+        text="Coq: (1) over every commutative ring the forcing of a mechanism is annihilated by every conservation law w of its "
+             "stoichiometry, for every state and rate constants (C09_forcing_conserves_linear_invariants); (2) the Rosenbrock "
+             "integrator propagates every linear functional w. with w.f = 0 through every stage, attempt (accepted or rejected) "
+             "and exit, for any coefficient table and history, given exact conservative linear solves "
+             "(C09_rosenbrock_propagates_linear_invariants: stage invariant w.K_i = 0, loop invariant w.Y = const). "
+             "Implementation: assembled solvers (both integrators, all configurations, the non-clipping overload of Solve) on "
+             "random mechanisms conserving a positive weighted sum by construction (incl. reactions switched off by a zero rate "
+             "constant, absent species, Troe and third-body reactions, per-cell air density): drift <= 1e-9 relative; runs in "
+             "which backward Euler clipped an iterate are excluded, as the property states (add-only clip hook).",
+        note="PARTIAL: the premise 'exact conservative solve' holds in exact arithmetic (C03/C04 + w^T J = 0) and up to rounding in "
+             "binary64: the oracle's tolerance covers the rounding. Backward Euler's conservation is validated, not proved.",
+        technique="Coq proof (ring identity; stage and loop invariants of the integrator) + conservation oracle on the assembled solvers",
         ref="6 C09"),
     "C10": dict(
         text="Coq: the clamp of Solver::Solve leaves no value below zero for any arithmetic (NaN included); a Rosenbrock run "
